@@ -79,7 +79,7 @@ Definition run_tabor (p : pt) (vals : list (name * Z)) (V : list name) (cl : boo
   | Ok (Some t) =>
       match tabor_compile FUEL mode mn mx (if cl then cleanup t else t) with
       | Err _ => (TbErr, None)
-      | Ok (st, w) => (tab_obs_of st w, Some st)
+      | Ok (st, w, _) => (tab_obs_of st w, Some st)
       end
   end.
 
